@@ -251,3 +251,14 @@ def run(ctx):
         ctx.add("R12.10", "C12/unseal-no-panic/none", False, "no panic-capable site found in any unseal function (anchor changed?)")
 FLOORS["R12.9"] = 8
 FLOORS["R12.10"] = 10
+
+# ---- R12.11 (shared with C09 R09.1 / R09.2 and C10 R10.5): the backends authenticate the version / purpose header from TYPE-LEVEL
+# constants, not from the received text — so the text parser must strip exactly those constants, whole, and decode the whole
+# remainder; otherwise a token whose header was altered still authenticates and reaches the decoder and the validator.
+_run_c12b = run
+def run(ctx):
+    _run_c12b(ctx)
+    import shared
+    shared.share(ctx, "c09", lambda r, k: r in ("R09.1", "R09.2") and k.endswith("/SealedToken"), "R12.11", "C12/parser-header/")
+    shared.share(ctx, "c10", lambda r, k: r == "R10.5" and k.endswith("/SealedToken"), "R12.11", "C12/parser-header/")
+FLOORS["R12.11"] = 3
